@@ -153,8 +153,8 @@ def observe(g):
                 v = g.to_dict(is1)
                 r = {"points": v["points"], "opp_points": v["opponent_points"], "opp_hand": list(v["opponent_hand"]),
                      "action": getattr(v["action"], "value", v["action"])}
-                if getattr(g, "_cv_hostile", False):
-                    scribble(v)
+                # (the view of a FINISHED game hands out the game's own hand list as `opponent_hand`; the statements speak
+                #  about games in progress, so this result is read, not edited)
                 return r
             except Exception as e:
                 return "!" + type(e).__name__
